@@ -2,6 +2,7 @@
 mod c02;
 mod c03;
 mod c16;
+mod c17;
 mod out;
 mod text;
 
@@ -30,6 +31,13 @@ fn main() {
             c16::run(&tier)
         }
         "c16-long" => c16::run_long(),
+        "c17" => {
+            if let Some(r) = replay {
+                let v: serde_json::Value = serde_json::from_str(&std::fs::read_to_string(&r).unwrap()).unwrap();
+                std::process::exit(if c17::replay(&v) { 0 } else { 1 });
+            }
+            c17::run(&tier)
+        }
         "c03" => {
             if let Some(r) = replay {
                 let v: serde_json::Value = serde_json::from_str(&std::fs::read_to_string(&r).unwrap()).unwrap();
